@@ -146,7 +146,8 @@ def run_history(case: dict):
                 url = f"gemini://{_auth(h, p)}/redir/{to[0]}_{to[1]}"
             if kind == "get-ca":
                 # CA validation switched on in addition to TOFU: the peers' certificates are the trust anchors
-                os.environ["SSL_CERT_FILE"] = certs.ca_bundle()
+                # (one anchor: the twins share a subject name, so a bundle with both makes path building ambiguous)
+                os.environ["SSL_CERT_FILE"] = certs.ca_bundle((state[hp],) if state[hp] in PARSABLE else ("rsa-a",))
                 try:
                     cl = GeminiClient(timeout=10, tofu_db_path=dbpath, verify_ssl=True)
                 finally:
